@@ -211,7 +211,7 @@ theorem initialState_G (hw : T.WFInv) (nroot : Nat) (o : Options) (multi : Bool)
     have h := hw.langs_ok l hl
     exact ⟨h.1, h.2.1, h.2.2.1⟩
   exact { flows := hflows, macros := hmac, envs := henv, gloss := hgl, items := hitems, langs := hlangs,
-          rots := ⟨hrots1, hrots2⟩,
+          rots := ⟨hrots1, hrots2⟩, unk := (by simp [initialState]),
           root := fun h => by simp [initialState] at h,
           inFrame := by simp [initialState] }
 
@@ -275,7 +275,7 @@ theorem parseRest_G (fuel : Nat) (latex define : Str) (A : AllSpecs T latex.leng
   apply Post_bind _ _ _ (Q := fun _ s => G T latex.length s)
   · apply Post_modify
     exact { flows := fun _ e he => (by cases he), macros := hg1.macros, envs := hg1.envs, gloss := hg1.gloss,
-            items := hg1.items, langs := hg1.langs, rots := hg1.rots,
+            items := hg1.items, langs := hg1.langs, rots := hg1.rots, unk := List.nodup_nil,
             root := hg1.root, inFrame := hg1.inFrame }
   intro _ s2 hg2
   apply Post_bind _ _ _ (Q := fun m0 s => G0 T latex.length s ∧ ∀ t ∈ m0, t.txt = [])
@@ -292,7 +292,7 @@ theorem parseRest_G (fuel : Nat) (latex define : Str) (A : AllSpecs T latex.leng
   apply Post_bind _ _ _ (Q := fun _ s => G0 T latex.length s ∧ s.nest = 0)
   · apply Post_modify
     exact ⟨{ flows := fun _ e he => (by cases he), macros := hg3.macros, envs := hg3.envs, gloss := hg3.gloss,
-             items := hg3.items, langs := hg3.langs, rots := hg3.rots }, rfl⟩
+             items := hg3.items, langs := hg3.langs, rots := hg3.rots, unk := hg3.unk }, rfl⟩
   intro _ s4 ⟨hg4, hn4⟩
   apply Post_bind _ _ _ (Q := fun r s => G0 T latex.length s ∧ OL T latex.length r)
   · exact Post_mono _ _ _ (A.work latex s4 hg4 (fun _ => rfl) (fun h => by omega))
